@@ -2,6 +2,7 @@ import UralModel.Lemmas.NormBridge
 import UralModel.Lemmas.Normalize
 import UralModel.Lemmas.C03
 import UralModel.Lemmas.C07Canon
+import UralModel.Lemmas.C07Bridge
 /-!
 # The result of `normalize_url` reparses to its tuple (C07: stems, hostname helpers; C11)
 
@@ -1158,6 +1159,88 @@ theorem print_reparse (strip : Bool) (SC NL PA Q F : Str)
   rw [urlsplit_urlunsplit20 _ _ _ _ _ hwf]
   rfl
 
+/-- "the scheme was kept", read off the printed string: it starts with letters and `://` -/
+def schemeKept (X : Str) : Bool := (UrlParts.protoLen X).isSome && !startsWith X ['/', '/']
+
+/-- **whether the scheme was stripped can be read off the printed result** -/
+theorem schemeKept_printed (strip : Bool) (SC NL PA Q F : Str)
+    (hsc : SC = [] ∨ (strip = false ∧ ∃ sc, SC = lower sc ∧ sc ≠ [] ∧ sc.length ≤ 64 ∧
+      sc.all isAsciiAlpha = true))
+    (hnet : NL ≠ [] ∨ SC = [] ∨ inTable usesNetloc20 SC = true)
+    (hNL : NetlocOk NL) (hpath : PathOk PA) (hhead : Head1 PA) :
+    schemeKept (printed strip SC NL PA Q F) = !SC.isEmpty := by
+  have hno2 := hhead.no2
+  unfold printed schemeKept
+  rcases hsc with rfl | ⟨hstrip, sc, rfl, h1, h2, h3⟩
+  · simp only [List.isEmpty_nil, Bool.not_true]
+    by_cases hn : NL = []
+    · subst hn
+      have hb0 : bodyOf [] [] PA = PA := bodyOf_false [] [] PA (by simp)
+      rw [urlunsplit20_eq, hb0]
+      simp only [schemePart, ne_eq, not_true_eq_false, if_false, List.nil_append]
+      rw [no2_path_tail PA Q F hhead, Bool.and_false]
+      simp only [Bool.false_eq_true, if_false]
+      rw [protoLen_of_delim_head (PA ++ (queryPart Q ++ fragPart F))
+        (pathTail_head PA Q F hpath.abs) (no2_path_tail PA Q F hhead)]
+      rfl
+    · have hb0 : bodyOf [] NL PA = '/' :: '/' :: (NL ++ PA) :=
+        bodyOf_true _ NL PA (by simp [hn]) hpath.abs
+      rw [urlunsplit20_eq, hb0]
+      simp only [schemePart, ne_eq, not_true_eq_false, if_false, List.nil_append]
+      have hsw : startsWith ('/' :: '/' :: (NL ++ PA) ++ (queryPart Q ++ fragPart F)) ['/', '/'] = true := by
+        simp [startsWith_cons_cons, startsWith_nil]
+      rw [hsw, Bool.and_true]
+      cases strip with
+      | true =>
+        simp only [if_true]
+        have e : ('/' :: '/' :: (NL ++ PA) ++ (queryPart Q ++ fragPart F)).drop 2 =
+            NL ++ (PA ++ (queryPart Q ++ fragPart F)) := by simp
+        rw [e, protoLen_netloc_rest NL (PA ++ (queryPart Q ++ fragPart F)) hn hNL.nodelim
+          (pathTail_head PA Q F hpath.abs) hNL.notScheme]
+        rfl
+      | false =>
+        simp only [Bool.false_eq_true, if_false, hsw, Bool.not_true, Bool.and_false]
+  · have hne : lower sc ≠ [] := by
+      cases sc with
+      | nil => exact absurd rfl h1
+      | cons a b => simp [lower]
+    have hie : (lower sc).isEmpty = false := by
+      cases hl : lower sc with
+      | nil => exact absurd hl hne
+      | cons _ _ => rfl
+    subst hstrip
+    simp only [Bool.false_and, Bool.false_eq_true, if_false, hie, Bool.not_false]
+    have hcond : (decide (NL ≠ []) || (decide (lower sc ≠ []) && inTable usesNetloc20 (lower sc) &&
+        !startsWith PA ['/', '/'])) = true := by
+      rcases hnet with h | h | h
+      · simp [h]
+      · exact absurd h hne
+      · simp [hne, h, hno2]
+    rw [urlunsplit20_eq, bodyOf_true _ NL PA hcond hpath.abs]
+    simp only [schemePart, ne_eq, hne, not_false_eq_true, if_true]
+    have e : lower sc ++ [':'] ++ ('/' :: '/' :: (NL ++ PA) ++ (queryPart Q ++ fragPart F)) =
+        lower sc ++ ':' :: '/' :: '/' :: ((NL ++ PA) ++ (queryPart Q ++ fragPart F)) := by simp
+    rw [e]
+    have hall : (lower sc).all isAsciiAlpha = true := by
+      rw [List.all_eq_true]
+      intro c hc
+      simp only [lower, List.mem_map] at hc
+      obtain ⟨d, hd, rfl⟩ := hc
+      exact Ural.C07.isAsciiAlpha_lowerChar ((List.all_eq_true.1 h3) d hd)
+    have hhp := hasProtocol_scheme (lower sc) ((NL ++ PA) ++ (queryPart Q ++ fragPart F)) hne
+      (by simpa [lower] using h2) hall
+    unfold hasProtocol at hhp
+    rw [Ural.C07.protoLen_eq] at hhp
+    rw [hhp]
+    have hsw : startsWith (lower sc ++ ':' :: '/' :: '/' :: ((NL ++ PA) ++ (queryPart Q ++ fragPart F))) ['/', '/'] = false := by
+      cases hl : lower sc with
+      | nil => exact absurd hl hne
+      | cons c r =>
+        have hc : isAsciiAlpha c = true := (List.all_eq_true.1 hall) c (by rw [hl]; simp)
+        have : c ≠ '/' := by intro e'; rw [e'] at hc; revert hc; decide
+        simp [startsWith_cons_cons, this]
+    rw [hsw]; rfl
+
 /-! ## the tuple is well-formed and reparses -/
 
 section
@@ -1263,6 +1346,18 @@ theorem norm_reparse (hn : HasNet (normParts puny o g.proto.hasProto (g.record p
     parts_noCtl_fragment hpc o G _
   refine print_reparse _ _ _ _ _ _ ?_ hn (parts_netlocOk hpc o G _) (parts_pathOk hpc o G _)
     (parts_head1 hpc o G _) (parts_qOk hpc o G _) hf
+  rcases scheme_cases hpc o G with h | ⟨sc, h, hs, h1, h2, h3⟩
+  · exact Or.inl h
+  · exact Or.inr ⟨hs, sc, h, h1, h2, h3⟩
+
+/-- … for `normalize_url`: the scheme of the tuple is empty iff the printed string does not start
+with letters and `://` -/
+theorem norm_schemeKept (hn : HasNet (normParts puny o g.proto.hasProto (g.record po))) :
+    schemeKept (finalString o g.proto.hasProto (normParts puny o g.proto.hasProto (g.record po))) =
+      !(normParts puny o g.proto.hasProto (g.record po)).scheme.isEmpty := by
+  rw [finalString_eq o]
+  refine schemeKept_printed _ _ _ _ _ _ ?_ hn (parts_netlocOk hpc o G _) (parts_pathOk hpc o G _)
+    (parts_head1 hpc o G _)
   rcases scheme_cases hpc o G with h | ⟨sc, h, hs, h1, h2, h3⟩
   · exact Or.inl h
   · exact Or.inr ⟨hs, sc, h, h1, h2, h3⟩
